@@ -329,7 +329,7 @@ def r16f(P, R):
                     "separator-less form only for at most %d element(s)" % max_compact,
                     "%s prints up to %d elements in its compact form, which writes no separator between elements: the printed text "
                     "does not re-parse (e.g. `{a: 1b: 2}`)" % (f.path, max_compact), loc=f.loc())
-    R.floor("R16-f", "compact/multiline thresholds", n, 3)
+    R.floor("R16-f", "compact/multiline thresholds", n, 1)   # several lists may share one part printer
 
 
 def builtin_remover(P, rg):
@@ -410,6 +410,33 @@ def lossless_traversal(P, R, rule, fns, what):
             R.holds(rule, key, "every element is visited; only content filters decide what is dropped", loc=g.loc())
 
 
+def concrete_writers(P, scope, g, expr, depth=0):
+    """[(function, writer type, local of the String buffer it wraps | None)] — where the writer passed as `expr` in `g` is created,
+    following it through parameters to the callers of g inside `scope`"""
+    while isinstance(expr, dict) and expr.get("k") in ("AddrOf", "DropTemps", "Use", "Unary") and isinstance(expr.get("e"), dict):
+        expr = expr["e"]
+    if not (isinstance(expr, dict) and expr.get("k") == "Path" and "local" in expr) or depth > 2:
+        return []
+    lid = expr["local"]
+    for idx, p_ in enumerate(g.params):
+        if p_.get("k") == "Binding" and p_.get("local") == lid:
+            out = []
+            for h in scope:
+                for x in h.walk():
+                    if x.get("k") in ("Call", "MethodCall") and call_name(x) == g.path:
+                        args = ([x["recv"]] if x.get("k") == "MethodCall" else []) + x["args"]
+                        r = concrete_writers(P, scope, h, args[idx], depth + 1) if idx < len(args) else []
+                        if not r:
+                            return []
+                        out += r
+            return out
+    for n in g.walk():
+        if n.get("k") == "Let" and n["pat"].get("k") == "Binding" and n["pat"].get("local") == lid and "init" in n:
+            bufs = [y["local"] for y in subnodes(n["init"]) if y.get("k") == "Path" and "local" in y and "String" in norm(str(y.get("t", "")))]
+            return [(g, norm(str(n["pat"].get("t", ""))), bufs[0] if len(bufs) == 1 else None)]
+    return []
+
+
 def r16c(P, R):
     nb = P.fn("nitrogql_cli::builtins::nitrogql_builtins")
     rg = P.fn("nitrogql_cli::generate::run_generate")
@@ -487,8 +514,28 @@ def r16c(P, R):
         R.check("R16-c", "server-route:%d" % i, ok,
                 "printed schema derives from remove_builtins(..)", "server schema is printed without %s" % rb.name, loc=g.loc())
         wt = norm(c["args"][0].get("t", ""))
-        R.check("R16-d", "server-writer:%d" % i, js, "printed into the escaping JsStringWriter",
-                "server schema is printed into `%s`, not the template-literal writer" % wt, loc=g.loc())
+        if js:
+            R.holds("R16-d", "server-writer:%d" % i, "printed into the escaping JsStringWriter", loc=g.loc())
+            continue
+        # the writer is not (statically) the template-literal writer here: find the concrete writers it stands for.  Printing the
+        # stripped schema as plain SDL through another writer is a legitimate second output; what is a defect is assembling JavaScript
+        # module text (an `export ...` prefix, a backtick) around a writer that does not escape for a template literal.
+        roots = concrete_writers(P, scope_fns(P, rg), g, c["args"][0])
+        if not roots:
+            R.undecided("R16-d", "server-writer:%d" % i, "the writer `%s` the server schema is printed into could not be traced to where it is created" % wt, loc=g.loc())
+            continue
+        bad = []
+        for h, ty, buf in roots:
+            if "JsStringWriter" in ty:
+                continue
+            js_text = [l for x in h.walk() if x.get("k") == "MethodCall" and x.get("method") in ("push_str", "push", "write_str", "insert_str")
+                       and buf is not None and any(y.get("k") == "Path" and y.get("local") == buf for y in subnodes(x["recv"]))
+                       for l in str_lits_in(x) if "export " in l or "`" in l]
+            if buf is None or js_text:
+                bad.append((h, ty, js_text))
+        R.check("R16-d", "server-writer:%d" % i, not bad, "printed into the escaping JsStringWriter wherever a JavaScript module is assembled around it",
+                "%s" % "; ".join("%s prints the server schema into `%s` while the same buffer receives JavaScript module text %s: the schema text is not "
+                                  "escaped for the template literal" % (h.path, ty, lits[:2]) for h, ty, lits in bad), loc=g.loc())
 
 
 def r16g(P, R):
